@@ -1,0 +1,78 @@
+//go:build verif
+
+/*
+ * Atree - Scalable Arrays and Ordered Maps
+ *
+ * Copyright Flow Foundation
+ *
+ * Licensed under the Apache License, Version 2.0 (the "License");
+ * you may not use this file except in compliance with the License.
+ * You may obtain a copy of the License at
+ *
+ *   http://www.apache.org/licenses/LICENSE-2.0
+ *
+ * Unless required by applicable law or agreed to in writing, software
+ * distributed under the License is distributed on an "AS IS" BASIS,
+ * WITHOUT WARRANTIES OR CONDITIONS OF ANY KIND, either express or implied.
+ * See the License for the specific language governing permissions and
+ * limitations under the License.
+ */
+
+package atree
+
+import "sort"
+
+// Verification hooks for the loaded-value iterators (C13). This file only exists for the compiler
+// when the build tag "verif" is set. It adds a way to drop chosen slabs from the read cache of a
+// PersistentSlabStorage and to list what RetrieveIfLoaded currently finds; it does not change any
+// existing declaration.
+
+// VerifStorageEvict removes the given slabs from the read cache (never from the write set) and
+// returns how many entries were dropped.
+func VerifStorageEvict(s *PersistentSlabStorage, ids []SlabID) int {
+	n := 0
+	for _, id := range ids {
+		if _, ok := s.cache[id]; ok {
+			delete(s.cache, id)
+			n++
+		}
+	}
+	return n
+}
+
+// VerifStorageLoadedIDs returns, sorted, every identifier for which RetrieveIfLoaded answers with
+// a slab (asked through RetrieveIfLoaded itself, over the keys of the write set and the read cache).
+func VerifStorageLoadedIDs(s *PersistentSlabStorage) []SlabID {
+	seen := make(map[SlabID]bool, len(s.deltas)+len(s.cache))
+	var out []SlabID
+	add := func(id SlabID) {
+		if seen[id] {
+			return
+		}
+		seen[id] = true
+		if s.RetrieveIfLoaded(id) != nil {
+			out = append(out, id)
+		}
+	}
+	for id := range s.deltas {
+		add(id)
+	}
+	for id := range s.cache {
+		add(id)
+	}
+	sort.Slice(out, func(i, j int) bool { return out[i].Compare(out[j]) < 0 })
+	return out
+}
+
+// VerifStorageCachedIDs returns, sorted, the identifiers held by the read cache that are not
+// shadowed by the write set (the ones VerifStorageEvict can make unloaded).
+func VerifStorageCachedIDs(s *PersistentSlabStorage) []SlabID {
+	var out []SlabID
+	for id := range s.cache {
+		if _, inDeltas := s.deltas[id]; !inDeltas {
+			out = append(out, id)
+		}
+	}
+	sort.Slice(out, func(i, j int) bool { return out[i].Compare(out[j]) < 0 })
+	return out
+}
